@@ -163,7 +163,7 @@ func check(c Case) (o ev.Outcome) {
 		if c.Stage2 != "" {
 			pre = "C06/after-" + c.Stage2
 		}
-		schema.CompareModules(&o, c.Set, obs, trees, canon.DiffOpts{Types: true, NS: true, Defaults: c.Stage2 != "deviation", SkipImplicitCaseNS: true}, pre, "instance-equals-expansion")
+		schema.CompareModules(&o, c.Set, obs, trees, canon.DiffOpts{Types: true, NS: true, Defaults: c.Stage2 != "deviation", SkipImplicitCaseNS: true, IfFeatures: true}, pre, "instance-equals-expansion")
 		if len(o.Violations) == 0 {
 			if s := sharedEntries(obs.MS); s != "" {
 				o.Violate("independent-copies", "C06/shared-node-object", "%s", s)
@@ -176,6 +176,8 @@ func check(c Case) (o ev.Outcome) {
 func gen(t *rapid.T) Case {
 	o := ymodel.DefaultOpts()
 	o.Typedefs = rapid.Bool().Draw(t, "typedefs")
+	o.IfFeatures = true
+	schema.AugmentIfFeatures = true
 	set, _ := schema.Generate(t, o)
 	c := Case{Set: set}
 	switch rapid.IntRange(0, 3).Draw(t, "stage2") {
